@@ -112,6 +112,8 @@ CLAIMS = {
 }
 
 ALL = ["C%02d" % i for i in range(1, 21)]
+# properties whose thorough command was validated (exit 0) on the unchanged tree; the others are registered quick-only
+THOROUGH_OK = []
 # properties whose check is not yet reliable on the unchanged tree: reason
 PENDING = 'check built; not yet validated end-to-end on the unchanged tree in this round (will be claimed once its quick command is stable)'
 UNCLAIMED = {}
@@ -125,17 +127,19 @@ def main():
         if pid not in claimed:
             continue
         c = CLAIMS[pid]
-        checks.append({
+        chk = {
             "property_id": pid,
             "quick_cmd": "./check %s --tier quick" % pid,
-            "thorough_cmd": "./check %s --tier thorough" % pid,
             "evidence_file": "/verif/evidence/%s.json" % pid,
             "replay_cmd_template": "cat {path}",
             "engine": "kani-contracts",
             "level_claimed": {"category": "proof", "text": c["text"], "design_ref": "DESIGN.md section " + c["ref"]},
             "level_note": c["note"],
             "technique": c["technique"],
-        })
+        }
+        if pid in THOROUGH_OK:
+            chk["thorough_cmd"] = "./check %s --tier thorough" % pid
+        checks.append(chk)
     man = {
         "version": 1,
         "setup_cmd": "./setup.sh",
